@@ -514,8 +514,8 @@ def c11(ctx):
 # C08 (and the UDP clauses of C13 / C20): UDP
 
 UDP_NODES = {"N1": ["A1", "A2"], "N2": ["B1"], "N3": ["C1"]}
-UDP_SOCKS = {"s1": "N1", "s2": "N1", "s3": "N3", "r1": "N2", "r2": "N2", "r3": "N1"}
-UDP_HOME = {"s1": "A1", "s2": "A2", "s3": "C1", "r1": "B1", "r2": "B1", "r3": "A1"}
+UDP_SOCKS = {"s1": "N1", "s2": "N1", "s3": "N3", "s4": "N1", "r1": "N2", "r2": "N2", "r3": "N1"}
+UDP_HOME = {"s1": "A1", "s2": "A2", "s3": "C1", "s4": "A2", "r1": "B1", "r2": "B1", "r3": "A1"}
 
 
 def udp_topo(rng, nat=None, caps=False, small=False):
@@ -527,7 +527,7 @@ def udp_topo(rng, nat=None, caps=False, small=False):
     if nat is None:
         nat = rng.choice(["none", "one", "shared"])
     if nat in ("one", "shared"):
-        addrs["A2"]["nat"] = "X1"
+        addrs["A2"]["nat"] = rng.choice(["X1", "X1", "X1+X3"])
     if nat == "shared":
         addrs["C1"]["nat"] = "X1"
     mtu = []
@@ -542,7 +542,7 @@ def rand_udp_program(rng):
     kind = rng.random()
     ops = []
     t = 0
-    port = {"s1": 5001, "s2": 5002, "s3": 5003, "r1": 7000, "r2": 7001, "r3": 7002}
+    port = {"s1": 5001, "s2": 5002, "s3": 5003, "s4": 5004, "r1": 7000, "r2": 7001, "r3": 7002}
     if kind < 0.12:
         # truncation storm: big datagrams read with tiny buffers
         topo = udp_topo(rng, caps=False)
@@ -587,7 +587,7 @@ def rand_udp_program(rng):
         t += rng.choice([0, 0, 1, 5, 100, rng.randint(0, 50000), rng.randint(0, 300000)])
         r = rng.random()
         if r < 0.62:
-            s = rng.choice(["s1", "s2", "s3", "r1"])
+            s = rng.choice(["s1", "s2", "s3", "s4", "s2", "s4", "r1"])
             if s not in bound or not isopen[s]:
                 continue
             nb = rng.choice([1, 1, 2, 3])
@@ -812,8 +812,8 @@ def c08(ctx):
 def tcp_topo(rng, lossy, nat):
     def lat():
         return rng.choice([0, 0, 100, 1000, rng.randint(0, 50000), rng.randint(0, 250000)])
-    mssv = rng.choice([1475, 1475, 1475, 500, 100, 3000, 37])
-    pair = rng.choice([1475, 500, 2000, 64]) if rng.random() < 0.4 else None
+    mssv = rng.choice([1475, 1475, 1475, 500, 100, 3000, 37, 1000, 800, 1300])
+    pair = rng.choice([1475, 500, 2000, 64, 900, 1200]) if rng.random() < 0.4 else None
     big = max(mssv, pair or 0)   # every finite queue can hold at least one full segment (C06)
     def cap():
         if not lossy:
@@ -825,7 +825,7 @@ def tcp_topo(rng, lossy, nat):
     for a in ["A1", "A2", "B1"]:
         addrs[a] = {"nat": "", "out_lat": lat(), "in_lat": lat(), "out_cap": cap(), "in_cap": cap(), "out_bw": bw(), "in_bw": bw()}
     if nat in ("client", "both"):
-        addrs["A2"]["nat"] = "X1"
+        addrs["A2"]["nat"] = rng.choice(["X1", "X1", "X1+X3"])
     if nat in ("acceptor", "both"):
         addrs["B1"]["nat"] = "X2"
     topo = {"tick_ns": 1000, "dmtu": mssv, "addrs": addrs, "mtu": [],
@@ -844,6 +844,9 @@ def rand_tcp_program(rng):
     acceptors = {"l1": {"node": "N2", "addr": "B1", "port": 8000, "listen_at": 0}}
     if rng.random() < 0.3:
         acceptors["l2"] = {"node": "N2", "addr": "B1", "port": 8001, "listen_at": rng.choice([0, 0, 1000])}
+    relisten = rng.random() < 0.1   # an acceptor that is closed and bound again without listening
+    if relisten:
+        acceptors["l2"] = {"node": "N2", "addr": "B1", "port": 8001, "listen_at": 0, "close_at": 300, "rebind_at": 500}
     nconn = rng.choice([1, 1, 1, 2, 3])
     conns, ctl = [], []
     for i in range(1, nconn + 1):
@@ -879,6 +882,16 @@ def rand_tcp_program(rng):
              "cread": {"style": rng.choice(["read", "wait"]), "caps": caps()},
              "aread": {"style": rng.choice(["read", "wait"]), "caps": caps()},
              "close": rng.choice(["none", "client", "acceptor", "client"])}
+        if relisten and acc == "l2":
+            # connects to the re-bound, non-listening endpoint must be refused
+            c["connect_at"] = 1000 + i
+            c["accept_at"] = 1
+        if rng.random() < 0.15:
+            # a readiness-style reader whose buffer ends exactly at segment ends
+            side = rng.choice(["cread", "aread"])
+            c[side] = {"style": "wait", "caps": [rng.choice([mssv, max(1, mssv // 5), 2 * mssv])]}
+            c["c2a"]["sizes"] = [mssv * rng.choice([1, 2, 4])]
+            c["a2c"]["sizes"] = [mssv * rng.choice([1, 3])]
         conns.append(c)
         if rng.random() < 0.5:
             for _ in range(rng.randint(1, 4)):
@@ -1326,3 +1339,192 @@ def c04(ctx):
         if not r.get("ok") and not (r["sig"].startswith(("inline", "nested")) or "exec.ec" in r["sig"] or "exec.unexpected" in r["sig"]):
             r["ok"] = True
     vlib.judge_replay(ctx, res, f1, total, sample=False)
+
+
+# ---------------------------------------------------------------------------
+# C19: packet capture
+
+def sym_of_ip(ip):
+    a = ip.split(".")
+    if a[0] == "10":
+        return chr(ord("A") + int(a[1]) - 1) + a[3]
+    if a[0] == "40":
+        return "X" + a[3]
+    return ip
+
+
+def fnv30(b):
+    h = 2166136261
+    for c in b:
+        h ^= c
+        h = (h * 16777619) & 0xffffffff
+    return h & 0x3fffffff
+
+
+def parse_pcap(path):
+    """Independent struct-level parser. Returns (magic_ok, records, trailing_bytes, framing_error)."""
+    import struct
+    try:
+        data = open(path, "rb").read()
+    except OSError:
+        return False, [], 0, "no capture file"
+    if len(data) < 24:
+        return False, [], len(data), "short global header"
+    magic, vmaj, vmin, zone, sig, snap, net = struct.unpack("<IHHiIII", data[:24])
+    ok = (magic == 0xa1b2c3d4 and vmaj == 2 and vmin == 4 and net == 101)
+    recs = []
+    pos = 24
+    err = None
+    while pos + 16 <= len(data):
+        sec, usec, incl, orig = struct.unpack("<IIII", data[pos:pos + 16])
+        pos += 16
+        if pos + incl > len(data):
+            err = "record runs past the end of the file"
+            break
+        pkt = data[pos:pos + incl]
+        pos += incl
+        if incl < 20:
+            err = "record shorter than an IP header"
+            break
+        vihl, dscp, iplen, ident, frag, ttl, proto = struct.unpack(">BBHHHBB", pkt[:10])
+        src = ".".join(str(x) for x in pkt[12:16])
+        dst = ".".join(str(x) for x in pkt[16:20])
+        r = {"e": "R", "caplen": incl, "origlen": orig, "iplen": iplen, "udplen": 0, "seq": 0,
+             "tus": [(sec - 441794304) & 0x7fffffff, usec & 0x7fffffff], "usec_ok": usec < 1000000, "ver_ok": vihl == 0x45}
+        if proto == 17 and incl >= 28:
+            sport, dport, ulen, _ = struct.unpack(">HHHH", pkt[20:28])
+            pl = pkt[28:]
+            r.update(proto="udp", udplen=ulen)
+        elif proto == 6 and incl >= 40:
+            sport, dport, seq, ack, off, flags, win, ck, urg = struct.unpack(">HHIIBBHHH", pkt[20:40])
+            pl = pkt[40:]
+            r.update(proto="tcp", seq=seq & 0x7fffffff, seq_hi=seq >> 31)
+        else:
+            err = "unknown protocol %d or truncated transport header" % proto
+            break
+        r.update(src=[sym_of_ip(src), sport], dst=[sym_of_ip(dst), dport], len=len(pl), dig=fnv30(pl))
+        recs.append(r)
+    return ok, recs, len(data) - pos if err is None else 0, err
+
+
+def pcap_run_events(run_lines, proto, pcap_path, tick_ns=10):
+    """Builds the TracePcap events of one run: W (first-hop transmissions) then R (file records)."""
+    evs = []
+    conns = {}
+    for l in run_lines:
+        if proto == "tcp":
+            if l.startswith('{"e":"Connect"'):
+                o = json.loads(l)
+                conns[o["conn"]] = (o["lep"], o["target"])
+            elif '"e":"Wire"' in l and ('"kind":"payload"' in l or '"kind":"error"' in l):
+                o = json.loads(l)
+                cep, tgt = conns.get(o["conn"], (None, None))
+                if cep is None:
+                    continue
+                src, dst = (cep, tgt) if o["dir"] == "c2a" else (tgt, cep)
+                evs.append({"e": "W", "proto": "tcp", "k": "%d/%s" % (o["conn"], o["dir"]), "src": src, "dst": dst,
+                            "len": o["len"], "dig": o["dig"], "tus": [o["t"] // 1000000, o["t"] % 1000000]})
+        else:
+            if l.startswith('{"e":"WireU"'):
+                o = json.loads(l)
+                if "dst" not in o:
+                    continue
+                evs.append({"e": "W", "proto": "udp", "k": "u", "src": o["from"], "dst": o["dst"], "len": o["len"],
+                            "dig": o["dig"], "tus": [(o["t"] * tick_ns // 1000) // 1000000, (o["t"] * tick_ns // 1000) % 1000000]})
+    ok, recs, trailing, err = parse_pcap(pcap_path)
+    return [{"e": "Cfg", "magic_ok": ok}] + evs + recs + [{"e": "End", "trailing": trailing}], err, len(recs)
+
+
+@check("C19", "model_checking")
+def c19(ctx):
+    import random
+    q = ctx.tier == "quick"
+    ctx.rule = ("TCP programs (several connections, both directions, lossy routes causing retransmission, closes) and UDP "
+                "programs (datagrams that fit one IPv4 packet) among IPv4 nodes with capture enabled; after the simulation is "
+                "destroyed an independent struct-level parser re-reads the file (magic/version/linktype 101, per-record "
+                "lengths, IP/UDP/TCP headers) and TLC validates, against Pcap.tla, that record k equals the k-th first-hop "
+                "transmission observed by the probes (time, endpoints, length, payload digest, TCP sequence number = bytes "
+                "previously transmitted in that direction) and that nothing is missing or extra; non-trivial = capture with "
+                ">= 3 records (and a retransmission or both directions for TCP); distinct by trace")
+    ctx.assumptions = ["IPv4 only; datagrams <= 65507 bytes", "probe at the first hop sees exactly the packets put on the wire"]
+    vlib.tlc_mc(ctx, "MCPcap.tla", "MC_Pcap.cfg", timeout=300)
+    rng = random.Random(ctx.seed)
+    pdir = ctx.path("pcap")
+    os.makedirs(pdir, exist_ok=True)
+    jobs = []
+    ft = ctx.path("pc_tcp.ndjson")
+    with open(ft, "w") as f:
+        for i in range(150 if q else 3000):
+            p = rand_tcp_program(rng)
+            p["pcap"] = os.path.join(pdir, "t%d.pcap" % i)
+            f.write(json.dumps(p) + "\n")
+    jobs.append(("tcp", ft))
+    fu = ctx.path("pc_udp.ndjson")
+    with open(fu, "w") as f:
+        for i in range(400 if q else 8000):
+            p = rand_udp_program(rng)
+            for o in p["ops"]:
+                if o["op"] == "send" and sum(o["bufs"]) > 65507:
+                    o["bufs"] = [65507]
+            if i == 0:
+                # a capture that spans hours of virtual time (sparse traffic, millisecond ticks)
+                p = {"topo": udp_topo(rng, nat="none", caps=False, small=True), "floor": True, "ops": [
+                    {"t": 0, "op": "bind", "s": "s1", "a": "A1", "p": 5001}, {"t": 0, "op": "bind", "s": "r1", "a": "B1", "p": 7000},
+                    {"t": 0, "op": "recv", "s": "r1", "style": "recv_from", "bufs": [100], "auto": True}]}
+                p["topo"]["tick_ns"] = 1000000
+                for k in range(18):
+                    p["ops"].append({"t": k * 531000 + (k % 3) * 7, "op": "send", "s": "s1", "dst": ["B1", 7000], "bufs": [40 + k]})
+            p["pcap"] = os.path.join(pdir, "u%d.pcap" % i)
+            f.write(json.dumps(p) + "\n")
+    jobs.append(("udp", fu))
+    for proto, f in jobs:
+        res, total, chunks = vlib.replay(ctx, "record-" + proto, f, keep=True, env={"VH_WALL_LIMIT": "1500"})
+        ctx.evaluations += len(res)
+        okidx = {r["i"] for r in res if r.get("ok")}
+        merged = []
+        nchunks = len(chunks)
+        for ci, c in enumerate(chunks):
+            tp = c + ".trace"
+            if not os.path.exists(tp):
+                continue
+            progs = [json.loads(l) for l in open(c) if l.strip()]
+            runs, cur = [], None
+            for line in open(tp):
+                if line.startswith('{"e":"Cfg"'):
+                    cur = []
+                if cur is not None:
+                    cur.append(line)
+                if line.startswith('{"e":"End') or line.startswith('{"e":"Abandon'):
+                    if cur is not None:
+                        runs.append(cur)
+                    cur = None
+            # runs correspond to the programs of the chunk that completed, in order
+            done = [k for k in range(len(progs)) if (ci + k * nchunks) in okidx]
+            out = c + ".pcaptrace"
+            with open(out, "w") as fo:
+                for k, run in zip(done, runs):
+                    evs, err, nrec = pcap_run_events(run, proto, progs[k]["pcap"], progs[k]["topo"].get("tick_ns", 10))
+                    if err:
+                        ctx.violation("pcap.malformed(%s)" % err, err, {"program": progs[k]}, {})
+                        continue
+                    for e in evs:
+                        fo.write(json.dumps(e, separators=(",", ":")) + "\n")
+                    txt = "".join(run)
+                    if nrec >= 3 and (proto == "udp" or '"nth":2' in txt or ('"dir":"a2c","kind":"payload"' in txt and '"dir":"c2a","kind":"payload"' in txt)):
+                        ctx.nontrivial.add(hash(txt))
+                        ctx.add_sample(evs[:8])
+            merged.append(out)
+        outv = vlib.validate_traces(ctx, "TracePcap.tla", "Trace_Pcap.cfg", merged)
+        for (nruns, nev, rejected), tp in zip(outv, merged):
+            ctx.traces += nruns
+            for rj in rejected:
+                try:
+                    e = json.loads(rj["event"])
+                except ValueError:
+                    e = {"e": "end"}
+                sig = "pcap.%s-record-mismatch" % e.get("proto", "") if e.get("e") == "R" else "pcap.reject@%s" % e.get("e")
+                ln = rj["lines"]
+                if len(ln) > 300:
+                    ln = ln[:10] + ["..."] + ln[max(0, rj["at"] - 100):rj["at"] + 3]
+                ctx.violation(sig, "capture rejected at event %d: %s | %s" % (rj["at"], rj["event"][:300], rj.get("state")),
+                              {"trace": ln}, {"kind": "trace", "module": "TracePcap.tla"})
